@@ -137,6 +137,11 @@ pub fn run(ctx: &Ctx) -> (Stats, Report) {
                 fs.extend(strat::edge_seeking(x, lim + 1));
                 fs.extend(strat::edge_seeking(x, 1 << 53));
                 fs.extend(strat::overflow_seeking(x));
+                fs.extend(strat::self_seeking(x));
+                // the range limits themselves (and the length of a day) as scalars
+                for l in [lim, lim + 1, lim - 1, US_PER_DAY, (1i128 << 53) + 1] {
+                    fs.extend(strat::self_seeking(l).into_iter().take(6));
+                }
                 for (fi, &f) in fs.iter().enumerate() {
                     for div in [false, true] {
                         st.evaluations += 1;
@@ -189,7 +194,7 @@ pub fn run(ctx: &Ctx) -> (Stats, Report) {
     st.section("random_operands", &mut mark);
 
     let rep = Report {
-        rule: "IntervalYM / IntervalDT / Time x {mul_f64, div_f64}: boundary+seeded interval pools x a classed scalar pool (small and large integers, dyadic fractions, decimals, tiny, huge, +-0, +-inf, NaN) plus per-interval edge-seeking factors limit/x, (limit+1)/x, 2^53/x and their bit neighbours, and factors tuned to the overflow boundary of the double (product / quotient = MAX x {1/4, 1/2, 1, 2, 4}) (E1); proptest-generated (interval, double) pairs with shrinking (E2). Oracle: exact dyadic-rational arithmetic: admissible Ok values are trunc(y) for |y - exact| <= 2^-52|exact| (enlarged by at most a relative 2^-60), a single value x*k for integer k with |x*k| < 2^53; NaN -> InvalidNumber, infinite operand or real result beyond the double range -> NumericOverflow, zero divisor -> DivideByZero, finite out-of-range -> IntervalOutOfRange (either outcome accepted only when the admissible set straddles the limit / the double maximum); sign symmetry compared as whole Results. Non-trivial = non-integer factor on a non-zero interval, or any error class; distinct by fingerprint.".into(),
+        rule: "IntervalYM / IntervalDT / Time x {mul_f64, div_f64}: boundary+seeded interval pools x a classed scalar pool (small and large integers, dyadic fractions, decimals, tiny, huge, +-0, +-inf, NaN) plus per-interval edge-seeking factors limit/x, (limit+1)/x, 2^53/x and their bit neighbours, and factors tuned to the overflow boundary of the double (product / quotient = MAX x {1/4, 1/2, 1, 2, 4}), scalars derived from the operand itself (x, x/2, 2x, x/3, x/10, 1/x, x+-1 with bit neighbours and both signs: quotients of exactly +-1, 2, 1/2) and the range limits / the length of a day as scalars (E1); proptest-generated (interval, double) pairs with shrinking (E2). Oracle: exact dyadic-rational arithmetic: admissible Ok values are trunc(y) for |y - exact| <= 2^-52|exact| (enlarged by at most a relative 2^-60), a single value x*k for integer k with |x*k| < 2^53; NaN -> InvalidNumber, infinite operand or real result beyond the double range -> NumericOverflow, zero divisor -> DivideByZero, finite out-of-range -> IntervalOutOfRange (either outcome accepted only when the admissible set straddles the limit / the double maximum); sign symmetry compared as whole Results. Non-trivial = non-integer factor on a non-zero interval, or any error class; distinct by fingerprint.".into(),
         assumptions: vec!["the admissible set is a superset of the statement's tolerance by construction, so floating-point ties cannot raise an alarm".into()],
         exhaustive: false,
         extra: Default::default(),
